@@ -61,7 +61,7 @@ func checkC09(c *Check) {
 	c.Ob("R1", "the certificate verified is the one the peer presented", verify.Pos(), strings.Contains(presented, "x509.ParseCertificate(*p:certificates[0])#0"), presented)
 	// options
 	opts := map[string]ssa.Value{}
-	eachInstr(vf, func(i ssa.Instruction) {
+	eachInstrDeep(vf, func(i ssa.Instruction) {
 		if st, ok := i.(*ssa.Store); ok {
 			if fa, ok := st.Addr.(*ssa.FieldAddr); ok {
 				if tn, f := structFieldOf(fa); tn == "crypto/x509.VerifyOptions" {
@@ -204,7 +204,7 @@ func checkC09(c *Check) {
 		c.Ob("R2", "validity period is checked against the wall clock", verify.Pos(), ct == "time.Now()", "CurrentTime="+ct+" (a time derived from the presented certificate disables expiry checking)")
 		// every possibly-nil return reachable in the client-cert branch passes the ok block
 		var branch *ssa.If
-		eachInstr(vf, func(i ssa.Instruction) {
+		eachInstrDeep(vf, func(i ssa.Instruction) {
 			if ifi, ok := i.(*ssa.If); ok && Sym(ifi.Cond) == "(builtin.len(p:certificates) > 0)" {
 				branch = ifi
 			}
